@@ -1,4 +1,5 @@
 import RV.Proofs.BinWriter
+import RV.Proofs.Cadence
 /-
   C06 — every archive snapshot equals the live state when taken, under any history.
 
@@ -178,6 +179,33 @@ example :
   · intro f hf
     simp only [List.mem_cons, List.not_mem_nil, or_false] at hf
     rcases hf with rfl | rfl <;> exact ⟨rfl, by decide, by decide, by decide⟩
+
+/-- **cadence, interval mode, both directions of integration** (`reb_simulationarchive_heartbeat`, exact time
+    arithmetic): `s = ±1` is the sign of `dt`, `d > 0` the interval, the heartbeat runs at step boundaries `ts`
+    that advance in direction `s` by at most one interval each (`|dt| ≤ |Δ|`), and `next` starts ahead of the
+    last boundary seen.  Then a snapshot is taken at a boundary iff the prescribed time has been reached, that
+    boundary is less than one interval past it, and the next prescribed time is exactly one interval further. -/
+theorem c06_cadence_interval_exact (s d : Int) (hs : s = 1 ∨ s = -1) (hd : 0 < d) (p next : Int) (ts : List Int)
+    (hinv : s * p < s * next) (hc : RV.Cadence.Chain s d p ts) :
+    RV.Cadence.Exact s d next ts (RV.Cadence.run RV.Cadence.intOps s d next ts).1 :=
+  RV.Cadence.cadence_exact s d hs hd p next ts hinv hc
+
+/-- the persisted cadence state after any run = start + (number of snapshots) · sign · interval -/
+theorem c06_cadence_next_advances (s d next : Int) (ts : List Int) :
+    (RV.Cadence.run RV.Cadence.intOps s d next ts).2
+      = next + (RV.Cadence.count (RV.Cadence.run RV.Cadence.intOps s d next ts).1 : Int) * (s * d) :=
+  RV.Cadence.cadence_next s d next ts
+
+/-- cadence, step mode: snapshots exactly at `steps_done = first + j·step` -/
+theorem c06_cadence_step_exact (step : Nat) (hd : 0 < step) (p next : Nat) (ts : List Nat)
+    (hinv : p < next) (hc : RV.Cadence.ChainStep step p ts) :
+    RV.Cadence.ExactStep step next ts (RV.Cadence.runStep step next ts).1 :=
+  RV.Cadence.cadence_step_exact step hd p next ts hinv hc
+
+/-- the reader's index arrays (capacity 1024, enlarged by 1024 when `i == nblobsmax-1`) always have slot `i`
+    when blob `i` is recorded, for every number of blobs: the unbounded `indexLoop` of the model is what the
+    growth schedule of the source implements -/
+theorem c06_index_capacity (i : Nat) : i < RV.Cadence.capAt i := RV.Cadence.cap_ok i
 
 /-- non-vacuity of the archive theorem: a concrete history satisfying `HistOK` (time 5 at both snapshots, a
     setting changed in between), for which the delta carries no time field — the F11 situation -/
